@@ -237,6 +237,16 @@ pub fn items(toks: &[(Tok, usize)]) -> Result<Vec<Item>, String> {
         if toks[i].0.is_ident("pub") {
             is_pub = true;
             i += 1;
+            // `pub(crate)`, `pub(super)`, `pub(in path)`: a restricted visibility is not `pub`
+            if toks.get(i).map(|t| t.0.is_p("(")).unwrap_or(false)
+                && toks.get(i + 1).map(|t| ["crate", "super", "self", "in"].iter().any(|k| t.0.is_ident(k))).unwrap_or(false)
+            {
+                is_pub = false;
+                while i < toks.len() && !toks[i].0.is_p(")") {
+                    i += 1;
+                }
+                i += 1;
+            }
         }
         let kw = toks.get(i).and_then(|t| t.0.ident()).ok_or_else(|| format!("expected item keyword at byte {}", toks.get(i).map(|t| t.1).unwrap_or(0)))?;
         let kind = match kw {
